@@ -15,6 +15,7 @@ import (
 	"github.com/itchyny/gojq"
 	"k8s.io/apimachinery/pkg/apis/meta/v1/unstructured"
 	"k8s.io/client-go/tools/cache"
+	simrt "verifsimrt"
 )
 
 // shownRec: one state (or absence) of one object shown to one resourceInformer.
@@ -50,11 +51,11 @@ type Observer struct {
 	e         *Env
 	ris       map[any]*riObs
 	Order     []*riObs
-	pendingL1 *riObs
+	pendingL1 map[int64]*riObs // per goroutine: loadExistedObjects entered, its list not yet served
 }
 
 func NewObserver(e *Env) *Observer {
-	o := &Observer{e: e, ris: map[any]*riObs{}, QStatus: map[string][]qStatus{}}
+	o := &Observer{e: e, ris: map[any]*riObs{}, QStatus: map[string][]qStatus{}, pendingL1: map[int64]*riObs{}}
 	e.S.Observer = o.observe
 	return o
 }
@@ -81,7 +82,7 @@ func (o *Observer) observe(name string, args ...any) {
 		o.QStatus[qn] = append(o.QStatus[qn], qStatus{Seq: o.e.Seq(), At: o.e.Since(), Status: fmt.Sprint(args[1])})
 	case "ri.load":
 		r := o.ri(args[0], args[1], args[2], args[3])
-		o.pendingL1 = r
+		o.pendingL1[simrt.GoID()] = r
 	case "ri.event":
 		r := o.ri(args[0], args[1], args[2], args[3])
 		typ := fmt.Sprint(args[4])
@@ -106,11 +107,17 @@ func (o *Observer) observe(name string, args ...any) {
 // ListServed is called by the API server model for every list answer; the first list after
 // an "ri.load" observation is that informer's own initial list (loadExistedObjects).
 func (o *Observer) ListServed(items []*unstructured.Unstructured) {
-	if o == nil || o.pendingL1 == nil {
+	if o == nil {
 		return
 	}
-	r := o.pendingL1
-	o.pendingL1 = nil
+	// the list is served on the goroutine that called loadExistedObjects (the fake client runs its
+	// reactors in the caller); informers of several bindings may be loading at the same time
+	g := simrt.GoID()
+	r := o.pendingL1[g]
+	if r == nil {
+		return
+	}
+	delete(o.pendingL1, g)
 	r.loaded = true
 	for _, it := range items {
 		r.Shown = append(r.Shown, shownRec{Seq: o.e.Seq(), Type: "List", Key: it.GetNamespace() + "/" + it.GetName(), RV: rvOf(it), Obj: it.DeepCopy()})
